@@ -462,6 +462,23 @@ func (g *Graph) Reaches(from, to Loc) bool {
 	return found
 }
 
+// ReachesAvoiding: is there a path from `from` (exclusive) to `to` that does not execute
+// the node at `avoid`?
+func (g *Graph) ReachesAvoiding(from, to, avoid Loc) bool {
+	found := false
+	g.Walk(from, func(n ast.Node, l Loc) bool {
+		if l == to {
+			found = true
+			return true
+		}
+		if l == avoid {
+			return true
+		}
+		return found
+	})
+	return found
+}
+
 // AllLocs iterates over every node of the graph.
 func (g *Graph) AllLocs(fn func(n ast.Node, l Loc)) {
 	for _, b := range g.Blocks {
@@ -707,3 +724,66 @@ func (g *Graph) Between(a, b Loc) []Loc {
 	}
 	return out
 }
+
+// Step is one node of an enumerated path; Edge is 0/1 when the node is a condition and the
+// path continues on its true/false edge, -1 otherwise.
+type Step struct {
+	Loc  Loc
+	Node ast.Node
+	Edge int
+}
+
+// PathsTo enumerates the acyclic block paths from `from` (exclusive) to `to` (inclusive),
+// up to limit paths; ok=false when the limit was hit.
+func (g *Graph) PathsTo(from, to Loc, limit int) (paths [][]Step, ok bool) {
+	ok = true
+	var cur []Step
+	onPath := map[*cfg.Block]bool{}
+	var dfs func(b *cfg.Block, start int)
+	dfs = func(b *cfg.Block, start int) {
+		if !ok {
+			return
+		}
+		n0 := len(cur)
+		nodes := g.nodes[b]
+		for i := start; i < len(nodes); i++ {
+			cur = append(cur, Step{Loc: Loc{b, i}, Node: nodes[i], Edge: -1})
+			if (Loc{b, i}) == to {
+				if len(paths) >= limit {
+					ok = false
+				} else {
+					paths = append(paths, append([]Step{}, cur...))
+				}
+				cur = cur[:n0]
+				return
+			}
+		}
+		if onPath[b] && start == 0 {
+			cur = cur[:n0]
+			return
+		}
+		if start == 0 {
+			onPath[b] = true
+		}
+		_, _, isCond := g.condOf(b)
+		for k, s := range b.Succs {
+			if !g.live(s) {
+				continue
+			}
+			if isCond && len(cur) > 0 && len(b.Succs) == 2 {
+				cur[len(cur)-1].Edge = k
+			}
+			if !onPath[s] {
+				dfs(s, 0)
+			}
+		}
+		if start == 0 {
+			delete(onPath, b)
+		}
+		cur = cur[:n0]
+	}
+	dfs(from.B, from.I+1)
+	return paths, ok
+}
+
+func (g *Graph) live(b *cfg.Block) bool { _, ok := g.idx[b]; return ok }
